@@ -10,6 +10,7 @@ render(shape, x, y, d) -> (wire_lines, code, texts, final_text)
 """
 
 NSHAPES = 8          # shapes 8 and 9 (symbolic status code) are used by the text conditions only
+SHAPES = [0, 1, 2, 3, 4, 5, 6, 7, 10]     # the reply shapes used by the schedule / text / segmentation conditions
 
 
 def stuff(line):
@@ -21,6 +22,9 @@ def render(shape, x, y, d, cd='50'):
         return (['2' + cd + ' ' + x], 200 + (ord(cd[0]) - 48) * 10 + (ord(cd[1]) - 48), [], x)
     if shape == 9:      # single-line failure with an arbitrary 5xx code
         return (['5' + cd + ' ' + x], 500 + (ord(cd[0]) - 48) * 10 + (ord(cd[1]) - 48), [], x)
+    if shape == 10:     # data block that is NOT the last part of the reply: mid line and a second block follow
+        return (['250+f='] + [stuff(z) for z in [d, 'b']] + ['.', '250-s=' + x, '250+t=', stuff(d), '.', '250 OK'],
+                250, ['f=', d, 'b', 's=' + x, 't=', d], 'OK')
     if shape == 0:
         return (['250 OK'], 250, [], 'OK')
     if shape == 1:
@@ -43,7 +47,7 @@ def render(shape, x, y, d, cd='50'):
 
 
 def nlines(shape):
-    return [1, 1, 1, 2, 3, 7, 5, 2, 1, 1][shape]
+    return [1, 1, 1, 2, 3, 7, 5, 2, 1, 1, 9][shape]
 
 
 def success_texts(texts, final):
